@@ -109,7 +109,8 @@ class Ctx:
     # ---------- translator ----------
     def translate(self):
         with Lock("coq"):
-            rc, out = sh([sys.executable, os.path.join(ROOT, "gen", "extract.py")], cwd=ROOT, timeout=300)
+            only = ",".join(os.path.basename(f) for f in self.coq_files if f.startswith("Gen/"))
+            rc, out = sh([sys.executable, os.path.join(ROOT, "gen", "extract.py"), "--only", only], cwd=ROOT, timeout=300)
         if rc != 0:
             self.violate("tie-broken", "translator gen/extract.py", {"output": out[-3000:]},
                          key="translator", found_input=False)
@@ -142,7 +143,7 @@ class Ctx:
                 self.discharged += len(names)
             else:
                 broken.append(f)
-            if f.startswith("Properties/"):
+            if f.startswith(("Properties/", "Ties/")):
                 self.theorems += [n for k, n in names if k == "Theorem"]
         self.proof_ok = (rc == 0)
         if rc != 0:
@@ -177,7 +178,7 @@ class Ctx:
         if bad:
             self.violate("hygiene", "hygiene scan", {"found": bad[:20]}, key="hygiene", found_input=False)
         # Print Assumptions of every theorem of the property file
-        props = [f for f in self.coq_files if f.startswith("Properties/")]
+        props = [f for f in self.coq_files if f.startswith(("Properties/", "Ties/"))]
         if props and self.proof_ok:
             os.makedirs(self.cases_dir, exist_ok=True)
             fn = os.path.join(self.cases_dir, "assum_%s.v" % self.pid)
@@ -206,7 +207,7 @@ class Ctx:
         return not bad
 
     def coqchk(self):
-        mods = ["BS." + f[:-2].replace("/", ".") for f in self.coq_files if f.startswith("Properties/")]
+        mods = ["BS." + f[:-2].replace("/", ".") for f in self.coq_files if f.startswith(("Properties/", "Ties/"))]
         rc, out = sh(["timeout", "1800", "coqchk", "-silent", "-o", "-Q", THEORIES, "BS"] + mods, cwd=COQ, timeout=1900)
         ok = rc == 0
         m = re.search(r"\* Axioms:\s*(.*?)(\n\s*\n|\Z)", out, re.S)
